@@ -2172,3 +2172,44 @@ def rule_suffix_step(col, facts):
         col.check(R, "%s:step-only-over-suffix" % name, not badsites,
                   "%d of %d expansions step over a byte that is not a digit without having found it equal to the base suffix: `12x4` reports InvalidDigit(3) / the partial parser consumes the `x` (Ok((12, 3)))" % (len(badsites), k), badsites[0] if badsites else f.loc())
     col.floor(R, "suffix steps in the integer parser", n, 2)
+
+
+def rule_partial_count_is_position(col, facts):
+    """UNIT-consumed (integer parser): the count a partial parse returns is a *position* in the input - the
+    cursor (minus one when the byte just taken turned out not to be a digit), or the buffer length.  Any other
+    quantity subtracted from the cursor (a number of zeros, a digit count) turns it into something else:
+    with no_integer_leading_zeros `parse_partial("0")` returned Ok((0, 0)) while the complete parser accepts
+    the whole input."""
+    R = "UNIT-consumed"
+    f = facts.fn("lexical_parse_integer::algorithm::algorithm_partial")
+    n = 0
+    bad = {}
+
+    def linear(e):
+        """(base, offset) for cursor()/buffer_length() +- constants, None otherwise."""
+        e = strip_casts(e)
+        if e[0] == "call" and last_seg(e[1]) in ("cursor", "buffer_length"):
+            return last_seg(e[1]), 0
+        if e[0] == "bin" and e[1] in ("Add", "Sub"):
+            l = linear(e[2])
+            r = strip_casts(e[3])
+            if l is not None and r[0] == "k" and isinstance(r[1], int):
+                return l[0], l[1] + (r[1] if e[1] == "Add" else -r[1])
+        return None
+    for i, b in enumerate(f.blocks):
+        if not f.live(i):
+            continue
+        for st in b["s"]:
+            if st[0] == "=" and st[1] == [0, []] and st[2][0] == "agg" and st[2][1][0] == "adt" and st[2][1][3] == "Ok":
+                e = rvalue_expr(f, st[2], 0)
+                tup = strip_casts(e[2][0])
+                if tup[0] != "agg" or len(tup[2]) != 2:
+                    col.bad(R, "algorithm_partial:Ok-shape", "an Ok value that is not (value, count): %s" % show(tup)[:80], f.loc(st[3]))
+                    continue
+                n += 1
+                lin = linear(tup[2][1])
+                if lin is None or lin[1] not in (0, -1) or (lin[0] == "buffer_length" and lin[1] != 0):
+                    bad[show(strip_casts(tup[2][1]))[:120]] = f.loc(st[3])
+    col.check(R, "algorithm_partial:count-is-cursor", not bad,
+              "the partial parser returns a count that is not the cursor position (or cursor - 1 / the buffer length): %s - e.g. `cursor() - zeros` reports Ok((0, 0)) for the input `0` under no_integer_leading_zeros although one byte was consumed and the complete parser accepts it" % sorted(bad)[:2], sorted(bad.values())[0] if bad else f.loc())
+    col.floor(R, "Ok exits of the partial integer parser", n, 4)
